@@ -83,14 +83,14 @@ PlanOf(p) ==
                     \cup TangentCells({"tplus"}, <<"generic">>, <<"1", "1e6">>, 1)
     [] p = "C06" -> TangentCells({"jacs", "adjexp"}, ThetaIn, LinJ, 0) \cup Sweep({"jacs"}, 0)
                     \cup ElementCells({"adj"}, ThetaElem, LinAll, <<"generic">>, <<"1">>, 0)
-    [] p = "C15" -> { Cell("interp", key, ThetaElem[i], Cyc(<<"zero", "1", "1e3">>, i + j), meth, pk, Cyc(<<"generic", "mid_hi", "generic">>, i + j), "1", v) :
+    [] p = "C15" -> { Cell("interp", key, ThetaElem[i], Cyc(<<"zero", "1", "1e3">>, i + j), meth, pk, Cyc(<<"generic", "mid_hi", "near_pi">>, i + j), "1", v) :
                         key \in Range(GroupsQ), i \in {1, 3, 9, 10}, j \in 1..2, v \in {0, 1},
-                        meth \in {"SLERP", "CUBIC", "CNSMOOTH"}, pk \in {"zero", "one", "random", "dyadic", "below", "above", "nan"} }
+                        meth \in {"SLERP", "CUBIC", "CNSMOOTH"}, pk \in {"zero", "one", "random", "dyadic", "near0", "near1", "below", "above", "nan"} }
                     \cup { Cell("phi", key, k, "-", "-", "-", "-", "-", 0) : key \in {"SE3_d", "SE3_f"}, k \in {"grid", "random"} }
     [] p = "C16" -> { Cell("avg", key, thc, linc, routine, kind, "-", "-", 0) :
                         key \in Range(GroupsQ), thc \in {"zero", "generic", "near_pi", "at_pi"}, linc \in {"zero", "1", "1e3"},
                         routine \in {"biinvariant", "average", "frechet_left", "frechet_right"},
-                        kind \in {"n1", "n2", "n3", "n10", "same", "empty"} \cup (IF Tier = "thorough" THEN {"n50"} ELSE {}) }
+                        kind \in {"n1", "n2", "n3", "n10", "out1", "same", "empty"} \cup (IF Tier = "thorough" THEN {"n50"} ELSE {}) }
     [] p = "C18" -> { Cell("isapprox", key, ThetaElem[i], linc, Hemis[h], "generic", e, f, 0) :
                         key \in Range(GroupsQ), i \in 1..Len(ThetaElem), h \in 1..2,
                         linc \in {"zero", "1e-8", "1e-3", "1", "1e3", "1e6", "1e9"}, e \in {"eps", "1e-9", "1e-3"}, f \in {"0", "lo", "hi", "tiny"} }
